@@ -5,6 +5,7 @@ package shadow
 
 import (
 	"fmt"
+	"unicode"
 
 	"github.com/gdamore/tcell/v2"
 	runewidth "github.com/mattn/go-runewidth"
@@ -58,14 +59,14 @@ type Cell struct {
 }
 
 type Screen struct {
-	W, H           int
-	Cells          []Cell
-	Default        StyleD
-	CursorX        int
-	CursorY        int
-	CursorStyle    int
-	CursorColor    tcell.Color // last colour that took effect: valid, or ColorReset; ColorDefault = never set
-	AllChanged     bool        // Sync / resize: everything may be repainted
+	W, H        int
+	Cells       []Cell
+	Default     StyleD
+	CursorX     int
+	CursorY     int
+	CursorStyle int
+	CursorColor tcell.Color // last colour that took effect: valid, or ColorReset; ColorDefault = never set
+	AllChanged  bool        // Sync / resize: everything may be repainted
 }
 
 func New(w, h int) *Screen {
@@ -120,10 +121,24 @@ func eqRunes(a, b []rune) bool {
 // zero-width and invalid runes.
 func Shown(r rune) (rune, int) {
 	w := runewidth.RuneWidth(r)
-	if w == 0 || r < ' ' {
+	if w == 0 || r < ' ' || Invisible(r) {
 		return ' ', 1
 	}
 	return r, w
+}
+
+// Invisible: characters that occupy no cell of their own by the Unicode standard whatever a
+// width table says - format characters (General Category Cf: bidi controls and isolates,
+// joiners, tags ...), non-spacing and enclosing marks (Mn, Me) and noncharacters. As primary
+// cell content they are shown as a blank.
+func Invisible(r rune) bool {
+	if r < 0 || r > 0x10ffff {
+		return false // invalid values are dealt with by the width rule
+	}
+	if unicode.In(r, unicode.Cf, unicode.Mn, unicode.Me) {
+		return true
+	}
+	return (r >= 0xfdd0 && r <= 0xfdef) || r&0xfffe == 0xfffe
 }
 
 func (s *Screen) SetContent(x, y int, r rune, comb []rune, st StyleD) {
@@ -172,31 +187,31 @@ func (s *Screen) LockRegion(x, y, w, h int, lock bool) {
 // Caps is what the terminal description can express (derived by the harness from the
 // entry's capability strings being present or not).
 type Caps struct {
-	Colors                                           int
-	TrueColor                                        bool
+	Colors                                               int
+	TrueColor                                            bool
 	Bold, Underline, Reverse, Blink, Dim, Italic, Strike bool
-	ULStyles, ULColor, ULRGB                         bool
-	URL                                              bool
-	HideCursor                                       bool
-	CursorStyles, CursorColor                        bool
+	ULStyles, ULColor, ULRGB                             bool
+	URL                                                  bool
+	HideCursor                                           bool
+	CursorStyles, CursorColor                            bool
 }
 
 // Want is the expected appearance of one cell; colour fields list every acceptable value
 // (ties of the nearest-colour search).
 type Want struct {
-	Skip   bool // locked, or the hidden half of a wide rune: not compared as a cell of its own
-	Tail   bool // must be the tail of the wide character to its left
-	R      rune
-	Comb   string
-	Wide   int
-	Fg, Bg []vt.Color
-	NoColor bool // monochrome terminal: colours and reverse are not compared
+	Skip                                      bool // locked, or the hidden half of a wide rune: not compared as a cell of its own
+	Tail                                      bool // must be the tail of the wide character to its left
+	R                                         rune
+	Comb                                      string
+	Wide                                      int
+	Fg, Bg                                    []vt.Color
+	NoColor                                   bool // monochrome terminal: colours and reverse are not compared
 	Bold, Reverse, Blink, Dim, Italic, Strike bool
-	UL     int
-	Ul     []vt.Color
-	ULAny  bool
-	Link, LinkID string
-	LinkAny      bool
+	UL                                        int
+	Ul                                        []vt.Color
+	ULAny                                     bool
+	Link, LinkID                              string
+	LinkAny                                   bool
 }
 
 var labCache = map[int32]refc.Lab{}
